@@ -246,8 +246,8 @@ fn op_strategy() -> BoxedStrategy<Op> {
     prop_oneof![
         5 => (0u8..6, 0u8..6).prop_map(|(a, b)| Op::Connect(a, b)),
         2 => (0u8..6).prop_map(Op::Disconnect),
-        2 => (0u8..6, [gen::moderate(), gen::moderate(), gen::moderate()], t.clone()).prop_map(|(a, v, t)| Op::SetState(a, v, t)),
-        2 => (0u8..6, 0u8..3, gen::moderate(), t).prop_map(|(a, k, v, t)| Op::SetCommand(a, k, v, t)),
+        2 => (0u8..6, [gen::mostly_moderate_any_finite(), gen::mostly_moderate_any_finite(), gen::mostly_moderate_any_finite()], t.clone()).prop_map(|(a, v, t)| Op::SetState(a, v, t)),
+        2 => (0u8..6, 0u8..3, gen::mostly_moderate_any_finite(), t).prop_map(|(a, k, v, t)| Op::SetCommand(a, k, v, t)),
     ]
     .boxed()
 }
